@@ -186,6 +186,12 @@ def run(ctx):
     from .c15 import REF_GET, MA
     agree_ref(ctx, ctx.func(MA + 'get_samples'), REF_GET, 'array source: successive requests deliver contiguous, correctly delayed samples',
               what=('return', 'attrstores', 'calls', 'substores'), max_depth=0, expand=False)
+    # ---- D8 the backend owns an independent digitiser / filterbank / requantiser per (antenna, polarisation)
+    ctx.clause = 'D8'
+    from .refs_backend import REF_BACKEND_INIT
+    agree_ref(ctx, ctx.func(B + '.__init__'), REF_BACKEND_INIT, 'RawVoltageBackend.__init__: template components are deep-copied per '
+              '(antenna, polarisation) so caches and statistics are never shared; geometry taken from the antenna source and the '
+              'first filterbank/requantiser', what=('attrstores', 'raises', 'asserts'), expand=False, max_depth=0)
     # ---- D6 per-recording resets (also C12-D3)
     ctx.clause = 'D6'
     fb = blk[0]
